@@ -1,6 +1,6 @@
 CONSTANTS
   NC = 1
-  NL = 0
+  NL = 1
   WRun = {}
   WTerm = {}
   QCap = 4
